@@ -33,7 +33,7 @@ class HyperLogLogWCache:
         self.M[j] = max(self.M[j], rho)
 
     def add(self, value):
-        if len(self.warmup_set) < self.warmup_size and not self.hll_flag:
+        if (len(self.warmup_set) < self.warmup_size or value in self.warmup_set) and not self.hll_flag:
             self.warmup_set.add(value)
         elif not self.hll_flag:
             if not self.hll_flag:
@@ -42,6 +42,7 @@ class HyperLogLogWCache:
                     self._hasher_update(element)
                 self.warmup_set = {}
             self.hll_flag = True
+            self._hasher_update(value)
         else:
             self._hasher_update(value)
 
